@@ -182,7 +182,8 @@ theorem accepted_layout' (bytes : List Nat) (z : Zone) (h : parse bytes = .ok z)
     rw [hver] at hb hv1
     dsimp only at hb
     obtain ⟨⟨st2, c2⟩, hs2, hb⟩ := bind_eq_ok hb
-    simp only [P.ok.injEq, Prod.mk.injEq] at hb
+    obtain ⟨hvv, hb⟩ := ite_err_ok hb
+    simp only [Prod.mk.injEq] at hb
     obtain ⟨rfl, rfl⟩ := hb
     obtain ⟨e2, l2, -, -, -, -⟩ := post_spec (post_state_layout c1 false) hs2
     simp only [Bool.false_eq_true, if_false] at e2 l2
@@ -204,7 +205,8 @@ theorem accepted_layout' (bytes : List Nat) (z : Zone) (h : parse bytes = .ok z)
     rw [hver] at hb hv1
     dsimp only at hb
     obtain ⟨⟨st2, c2⟩, hs2, hb⟩ := bind_eq_ok hb
-    simp only [P.ok.injEq, Prod.mk.injEq] at hb
+    obtain ⟨hvv, hb⟩ := ite_err_ok hb
+    simp only [Prod.mk.injEq] at hb
     obtain ⟨rfl, rfl⟩ := hb
     obtain ⟨e2, l2, -, -, -, -⟩ := post_spec (post_state_layout c1 false) hs2
     simp only [Bool.false_eq_true, if_false] at e2 l2
@@ -261,7 +263,8 @@ theorem capacityBytes_le (bytes : List Nat) : 5 * (capacityBytes bytes).sum ≤ 
         rw [hver] at hb
         dsimp only at hb
         obtain ⟨⟨st2, c2⟩, hs2, hb⟩ := bind_eq_ok hb
-        simp only [P.ok.injEq, Prod.mk.injEq] at hb
+        obtain ⟨hvv, hb⟩ := ite_err_ok hb
+        simp only [Prod.mk.injEq] at hb
         obtain ⟨rfl, -⟩ := hb
         obtain ⟨-, l2, -, r3, r4, r2⟩ := post_spec (post_state_layout c1 false) hs2
         simp only [Bool.false_eq_true, if_false] at l2
@@ -273,7 +276,8 @@ theorem capacityBytes_le (bytes : List Nat) : 5 * (capacityBytes bytes).sum ≤ 
         rw [hver] at hb
         dsimp only at hb
         obtain ⟨⟨st2, c2⟩, hs2, hb⟩ := bind_eq_ok hb
-        simp only [P.ok.injEq, Prod.mk.injEq] at hb
+        obtain ⟨hvv, hb⟩ := ite_err_ok hb
+        simp only [Prod.mk.injEq] at hb
         obtain ⟨rfl, -⟩ := hb
         obtain ⟨-, l2, -, r3, r4, r2⟩ := post_spec (post_state_layout c1 false) hs2
         simp only [Bool.false_eq_true, if_false] at l2
@@ -321,13 +325,15 @@ theorem parseBlocks_footer {bytes : List Nat} {st : State} {fo : Option (List Na
     rw [hver] at h hv1
     dsimp only at h
     obtain ⟨⟨st2, c2⟩, -, h⟩ := bind_eq_ok h
-    simp only [P.ok.injEq, Prod.mk.injEq] at h
+    obtain ⟨hvv, h⟩ := ite_err_ok h
+    simp only [Prod.mk.injEq] at h
     exact Or.inr ⟨by rw [hv1]; simp, c2, h.2.symm⟩
   | V3 =>
     rw [hver] at h hv1
     dsimp only at h
     obtain ⟨⟨st2, c2⟩, -, h⟩ := bind_eq_ok h
-    simp only [P.ok.injEq, Prod.mk.injEq] at h
+    obtain ⟨hvv, h⟩ := ite_err_ok h
+    simp only [Prod.mk.injEq] at h
     exact Or.inr ⟨by rw [hv1]; simp, c2, h.2.symm⟩
 
 /-- what an `Ok` of the footer arm means -/
